@@ -161,3 +161,37 @@ func VerifFailureConcurrentReader() {
 	verifAssert(verifGoroutines() == 0, "no goroutine is left blocked")
 	verifReach("completed")
 }
+
+// VerifFailureBlockedWriter: request B is in flight and the caller of request A is blocked
+// inside Write (the peer has stopped reading; a blocked Write returns only when the connection
+// is closed) when the connection is declared failed - by Close or by the reader: the connection
+// is closed, which releases the writer, and both requests are completed exactly once.
+func VerifFailureBlockedWriter() {
+	conn := &vConn{}
+	c := vNewClient(conn, 1)
+	reg := vReg("t,,1")
+	ctx := context.Background()
+	b, a := vGet(ctx, "b", reg), vGet(ctx, "a", reg)
+	verifAssert(c.trySend(b) == nil, "send B")
+	conn.writeStall = make(chan struct{})
+	senderDone := false
+	go func() {
+		if err := c.trySend(a); err != nil {
+			returnResult(a, nil, err)
+		}
+		senderDone = true
+	}()
+	verifQuiesce()
+	verifAssert(!senderDone, "the sender is blocked in Write")
+	if verifBool() {
+		c.Close()
+	} else {
+		c.fail(ServerError{vErrConn}) // what the reader does on a read error or time-out
+	}
+	verifQuiesce()
+	verifAssert(conn.closed > 0, "a failed connection is closed")
+	verifAssert(senderDone, "the blocked sender is released")
+	verifAssert(vResults(b) == 1 && vResults(a) == 1, "both requests are completed exactly once")
+	verifAssert(verifGoroutines() == 0, "no goroutine is left blocked")
+	verifReach("writer-released")
+}
